@@ -2045,6 +2045,9 @@ func (s *sim) finishCall() {
 				}
 			}
 		}
+		if prim != primAfter {
+			own = false // providers changed roles during the call: "sides" are not well defined
+		}
 		if own || !(served(ev.prov, hash) || servedByOther(ev.prov, hash)) {
 			e.Fail("C09", "evidence-wrong-side", "provider %d received evidence whose conflicting block %s is its own / was never served by the other side", ev.prov, hx(hash))
 		}
